@@ -138,6 +138,42 @@ def main():
     (status["extracted"] if m else status["fallback"]).append("junkNames")
     defs.append("/-- junk file names (as bytes): `src/walker.rs` -/\ndef junkNames : List (List UInt8) := [" + ", ".join("[" + ", ".join(str(b) for b in j.encode()) + "]" for j in junk) + "]")
 
+    # ---- C12 UDP tracker
+    nat("udpMagic", "src/tracker/connect.rs", r"UDP_TRACKER_MAGIC\s*:\s*u64\s*=\s*(0x[0-9a-fA-F_]+)", 0x41727101980, doc="BEP 15 protocol magic")
+    nat("connectReqLen", "src/tracker/connect.rs", r"impl\s+Request\s*\{\s*pub\(crate\)\s*const\s+LENGTH\s*:\s*usize\s*=\s*(\d+)", 16, doc="connect request length")
+    nat("connectRespLen", "src/tracker/connect.rs", r"impl\s+Response\s*\{\s*pub\(crate\)\s*const\s+LENGTH\s*:\s*usize\s*=\s*(\d+)", 16, doc="connect response length")
+    nat("announceReqLen", "src/tracker/announce.rs", r"impl\s+Request\s*\{\s*pub\(crate\)\s*const\s+LENGTH\s*:\s*usize\s*=\s*(\d+)", 98, doc="announce request length")
+    nat("announceRespLen", "src/tracker/announce.rs", r"impl\s+Response\s*\{\s*pub\(crate\)\s*const\s+LENGTH\s*:\s*usize\s*=\s*(\d+)", 20, doc="announce response header length")
+    nat("udpRetries", "src/tracker/client.rs", r"for\s+_\s+in\s+0\s*\.\.\s*(\d+)\s*\{\s*self\.sock\.send", 3, doc="send attempts per exchange")
+    nat("rxBufLen", "src/tracker/client.rs", r"RX_BUF_LEN\s*:\s*usize\s*=\s*(\d+)", 8192, doc="announce receive buffer")
+    nat("strideV4", "src/tracker/client.rs", r"let\s+stride\s*=\s*if\s+is_ipv6\s*\{\s*\d+\s*\}\s*else\s*\{\s*(\d+)\s*\}", 6, doc="compact IPv4 record")
+    nat("strideV6", "src/tracker/client.rs", r"let\s+stride\s*=\s*if\s+is_ipv6\s*\{\s*(\d+)\s*\}", 18, doc="compact IPv6 record")
+    src = read(repo, "src/tracker/announce.rs")
+    def field_const(name, default):
+        m = re.search(name + r"\s*:\s*(u64::MAX|u32::MAX|0x[0-9a-fA-F_]+|\d+)\s*,", src)
+        val = default
+        if m:
+            t = m.group(1)
+            val = 2**64 - 1 if t == "u64::MAX" else 2**32 - 1 if t == "u32::MAX" else nat_expr(t)
+            status["extracted"].append("announce_" + name)
+        else:
+            status["fallback"].append("announce_" + name)
+        return val
+    for nm, dflt, lean in [("downloaded", 0, "annDownloaded"), ("left", 2**64 - 1, "annLeft"), ("uploaded", 0, "annUploaded"), ("event", 0, "annEvent"), ("ip_address", 0, "annIp"), ("num_want", 2**32 - 1, "annNumWant")]:
+        defs.append(f"/-- announce request field `{nm}`: `src/tracker/announce.rs` -/\ndef {lean} : Nat := {field_const(nm, dflt)}")
+    def order(rel, default):
+        src2 = read(repo, rel)
+        m = re.search(r"impl\s+super::Request\s+for\s+Request\s*\{.*?fn\s+serialize\(&self\)\s*->\s*Vec<u8>\s*\{(.*?)\n\s*msg\n", src2, flags=re.S)
+        if not m:
+            return default, False
+        return re.findall(r"extend_from_slice\(&self\.([a-z_]+)", m.group(1)), True
+    co, ok1 = order("src/tracker/connect.rs", ["protocol_id", "action", "transaction_id"])
+    ao, ok2 = order("src/tracker/announce.rs", ["connection_id", "action", "transaction_id", "infohash", "peer_id", "downloaded", "left", "uploaded", "event", "ip_address", "num_want", "port"])
+    (status["extracted"] if ok1 else status["fallback"]).append("connectFieldOrder")
+    (status["extracted"] if ok2 else status["fallback"]).append("announceFieldOrder")
+    defs.append("/-- serialisation order of the connect request: `src/tracker/connect.rs` -/\ndef connectFieldOrder : List String := [" + ", ".join(json.dumps(x) for x in co) + "]")
+    defs.append("/-- serialisation order of the announce request: `src/tracker/announce.rs` -/\ndef announceFieldOrder : List String := [" + ", ".join(json.dumps(x) for x in ao) + "]")
+
     body = "/-! GENERATED by tools/gen_consts.py from /repo sources on every check run. Do not edit. -/\nnamespace Imdlv.Consts\n\n" + "\n\n".join(defs) + "\n\nend Imdlv.Consts\n"
     old = None
     try:
